@@ -436,6 +436,8 @@ def canon_impl(o, sigs):
             sigs["n"][sig] = int(fname[1:-4])
         elif fname.startswith("pv"):
             sigs["n"][sig] = int(fname[2:])
+        elif fname.startswith("m3") and fname[1:].isdigit():
+            sigs["n"][sig] = int(fname[1:])
         elif fname.startswith("pat") and fname.endswith(".in"):
             d, g = fname.split("/")
             sigs["n"][sig] = 10000 + 100 * int(d[3:]) + int(g[1:-3])
@@ -445,7 +447,7 @@ def canon_impl(o, sigs):
     for ts, ns, h in o["db"]:
         t = sigs["t"].get(ts, ts)
         k = sigs["t"].get(ns, sigs["n"].get(ns, ns))
-        db.add((t, k, h))
+        db.add((t, k, "mem" if isinstance(k, int) and 300 <= k < 400 else h))
     files = {int(n): (int(c) if c.strip().isdigit() else c) for n, c in o["files"].items()}
     effs = []
     for e in o.get("effects", []):
@@ -465,14 +467,17 @@ def canon_model(m, o, modsha):
     for t, k, v in db:
         if k == t or (k < 100):
             rows.add((t, k, modsha.get(v, f"?V{v}")))
+        elif 300 <= k < 400:
+            rows.add((t, k, "mem"))       # a value handed over in memory: its state is a constant
         elif 200 <= k < 300:
             # hashed Python input: state = sha256 of the concatenated element hashes (ints hash to themselves)
             import verif_rt
             rows.add((t, k, EI.sha("".join(str(x) for x in verif_rt.vt_of(v)))))
         else:
             rows.add((t, k, EI.sha(str(v))))
-    return {"exit": ex, "reports": [tuple(r) for r in reports], "log": list(log), "db": rows, "files": {n: c for n, c in fs},
-            "effects": [tuple(e) for e in effs]}
+    return {"exit": ex, "reports": [tuple(r) for r in reports], "log": list(log), "db": rows,
+            "files": {n: c for n, c in fs if not 300 <= n < 400},
+            "effects": [tuple(e) for e in effs if not (e[0] == 0 and 300 <= e[1] < 400)]}
 
 
 def compare(ci, mi):
